@@ -32,12 +32,12 @@ def _value_source(f: FuncInfo, e: ast.expr, depth: int = 3) -> ast.expr:
     return e
 
 
-def run(chk: Check) -> None:
+def snapshot_isolation(chk: Check, rule: str = 'PROV-snapshot-isolation') -> None:
+    """What a persister stores is detached from the live process at save time and what it hands out is detached from its
+    own table at load time.  Shared with C08 (a checkpoint that moves with the process is not the checkpoint)."""
     prog = chk.prog
     mem = prog.cls('persistence.InMemoryPersister')
     pic = prog.cls('persistence.PicklePersister')
-    base = prog.cls('persistence.Persister')
-
     # 1. snapshot isolation -- save side
     ms = prog.view(mem.methods['save_checkpoint'])
     stores = [n for n in ast.walk(ms.node) if isinstance(n, ast.Assign) and isinstance(n.targets[0], ast.Subscript)]
@@ -48,7 +48,7 @@ def run(chk: Check) -> None:
     if not ok and len(stores) == 1:
         v = stores[0].value
         ok = isinstance(v, ast.Call) and norm(v.func) == 'copy.deepcopy'
-    chk.ob('PROV-snapshot-isolation', ms, ok, 'what the in-memory persister stores is dereferenced (deep-copied) at save time: later progress of the live process does not show',
+    chk.ob(rule, ms, ok, 'what the in-memory persister stores is dereferenced (deep-copied) at save time: later progress of the live process does not show',
            node=stores[0] if stores else None, kind='save:dereferenced')
     bi = prog.func('persistence.Bundle.__init__')
     bf = chk.ctx.facts.analyse(bi)
@@ -56,17 +56,17 @@ def run(chk: Check) -> None:
     deref = [c for c in upd if isinstance(c.args[0], ast.Call) and norm(c.args[0].func) == 'copy.deepcopy']
     ok = bool(deref) and all(('T', 'dereference') in bf.at(n) for c in deref for n in bf.cfg.nodes_containing(c)) and all(
         ('F', 'dereference') in bf.at(n) for c in upd if c not in deref for n in bf.cfg.nodes_containing(c))
-    chk.ob('PROV-snapshot-isolation', bi, ok, 'Bundle(dereference=True) deep-copies the saved state', kind='bundle-dereference')
+    chk.ob(rule, bi, ok, 'Bundle(dereference=True) deep-copies the saved state', kind='bundle-dereference')
     pst = prog.view(pic.methods['save_checkpoint'])
     cfg = cfg_of(pst)
     dumps = [n for n in cfg.nodes if any(isinstance(c, ast.Call) and norm(c.func) in ('pickle.dump', 'pickle.dumps') for c in (walk_shallow(n.expr()) if n.expr() is not None else []))]
     ok = len(dumps) == 1 and cfg.must_pass(cfg.entry, [cfg.exit], lambda m: m in dumps, edge_ok=no_exc)
-    chk.ob('PROV-snapshot-isolation', pst, ok, 'the pickle persister serialises the bundle before save_checkpoint returns, on every path', kind='save:serialised')
+    chk.ob(rule, pst, ok, 'the pickle persister serialises the bundle before save_checkpoint returns, on every path', kind='save:serialised')
     # what is serialised contains the bundle of the process and its (pid, tag)
     b = [c for c in calls_in_func(pst, 'Bundle')]
     cp = [c for c in calls_in_func(pst, 'PersistedCheckpoint')]
     ok = len(b) == 1 and [norm(a) for a in b[0].args] == [pst.params[1]] and len(cp) == 1 and [norm(a) for a in cp[0].args] == [f'{pst.params[1]}.pid', pst.params[2]]
-    chk.ob('PROV-snapshot-isolation', pst, ok, 'the pickle holds the bundle of that process together with its (pid, tag)', kind='save:content')
+    chk.ob(rule, pst, ok, 'the pickle holds the bundle of that process together with its (pid, tag)', kind='save:content')
 
     # 1. snapshot isolation -- load side: the returned bundle is fresh, not the persister's own object
     for cls in (mem, pic):
@@ -79,11 +79,21 @@ def run(chk: Check) -> None:
             fresh = isinstance(src, ast.Call) and (norm(src.func) in FRESH_CALLS or last_name(src) in ('deepcopy', 'load_pickle', 'loads', 'load'))
             detail.append(norm(src)[:80])
             ok &= fresh
-        chk.ob('PROV-snapshot-isolation', lf, ok,
+        chk.ob(rule, lf, ok,
                f'what {cls.name}.load_checkpoint hands out is fresh (a deserialisation or a deep copy): {detail}' + ('' if ok else
                ' -- it is the object held in the persister\'s own table; a process continued from it mutates members in place (the load path copies nothing), '
                'so loading the same checkpoint again returns a changed "snapshot"; the pickle persister returns a freshly unpickled object every time'),
                node=rets[0] if rets else None, kind='load:fresh')
+
+
+
+def run(chk: Check) -> None:
+    prog = chk.prog
+    mem = prog.cls('persistence.InMemoryPersister')
+    pic = prog.cls('persistence.PicklePersister')
+    base = prog.cls('persistence.Persister')
+
+    snapshot_isolation(chk)
 
     # 2. one key function
     fp = prog.view(pic.methods.get('_pickle_filepath'))
@@ -131,6 +141,8 @@ def run(chk: Check) -> None:
     ml = prog.view(mem.methods['load_checkpoint'])
     ok = any(isinstance(n, ast.Subscript) and norm(n) == f'self._checkpoints[{ml.params[1]}][{ml.params[2]}]' for n in ast.walk(ml.node))
     chk.ob('SIB-key-function', ml, ok, 'in memory: load reads the entry [pid][tag]', kind='keyed-by-both')
+    ms = prog.view(mem.methods['save_checkpoint'])
+    stores = [n for n in ast.walk(ms.node) if isinstance(n, ast.Assign) and isinstance(n.targets[0], ast.Subscript)]
     ok = len(stores) == 1 and norm(stores[0].targets[0]) == f'self._checkpoints.setdefault({ms.params[1]}.pid, {{}})[{ms.params[2]}]'
     chk.ob('SIB-key-function', ms, ok, 'in memory: save writes the entry [process.pid][tag]', kind='keyed-by-both')
 
